@@ -452,4 +452,157 @@ theorem index_scalar_items (s : Shape) (ixs : List Ix) (h : index s ixs = .ok []
           have h0 : acc.result.length = 0 := by simp [hres]
           omega
 
+/-! ### indexing a 0-d array: every result dimension is 0 or 1 -/
+
+def Small (l : List Nat) : Prop := ∀ d ∈ l, d ≤ 1
+
+theorem Small.append {a b : List Nat} (ha : Small a) (hb : Small b) : Small (a ++ b) := by
+  intro d hd
+  rcases List.mem_append.1 hd with h | h
+  · exact ha d h
+  · exact hb d h
+
+theorem size_le_one_of_small (l : List Nat) (h : Small l) : size l ≤ 1 := by
+  induction l with
+  | nil => simp [size]
+  | cons d l ih =>
+    have hd : d ≤ 1 := h d (by simp)
+    have hl := ih (fun e he => h e (by simp [he]))
+    simp only [size]
+    calc d * size l ≤ 1 * 1 := Nat.mul_le_mul hd hl
+      _ = 1 := rfl
+
+theorem bcastRev_small (a b r : List Nat) (ha : Small a) (hb : Small b) (h : bcastRev a b = some r) :
+    Small r := by
+  induction a generalizing b r with
+  | nil => cases b <;> simp [bcastRev] at h <;> subst h <;> assumption
+  | cons x a ih =>
+    cases b with
+    | nil => simp [bcastRev] at h; subst h; exact ha
+    | cons y b =>
+      simp only [bcastRev] at h
+      cases hr : bcastRev a b with
+      | none => simp [hr] at h
+      | some r' =>
+        have hs := ih b r' (fun e he => ha e (by simp [he])) (fun e he => hb e (by simp [he])) hr
+        have hx : x ≤ 1 := ha x (by simp)
+        have hy : y ≤ 1 := hb y (by simp)
+        simp only [hr] at h
+        repeat' split at h
+        all_goals first
+          | (cases h; intro e he; rcases List.mem_cons.1 he with rfl | he
+             · assumption
+             · exact hs e he)
+          | cases h
+
+theorem broadcast_small (a b r : Shape) (ha : Small a) (hb : Small b) (h : broadcast a b = some r) :
+    Small r := by
+  simp only [broadcast, Option.map_eq_some_iff] at h
+  obtain ⟨r', hr, rfl⟩ := h
+  have := bcastRev_small a.reverse b.reverse r' (fun e he => ha e (by simpa using he))
+    (fun e he => hb e (by simpa using he)) hr
+  intro e he; exact this e (by simpa using he)
+
+/-- invariant of the walk over a 0-d array -/
+def IxAcc.SmallAcc (a : IxAcc) : Prop := Small a.pre ∧ Small a.post ∧ Small (a.adv.getD [])
+
+theorem IxAcc.pushBasic_small (a : IxAcc) (dims : List Nat) (ha : a.SmallAcc) (hd : Small dims) :
+    (a.pushBasic dims).SmallAcc := by
+  unfold IxAcc.pushBasic
+  obtain ⟨h1, h2, h3⟩ := ha
+  split
+  · exact ⟨h1.append hd, h2, h3⟩
+  · split
+    · exact ⟨h1, h2.append hd, h3⟩
+    · exact ⟨h1, h2.append hd, h3⟩
+
+theorem IxAcc.pushAdv_small (a a' : IxAcc) (sh : Shape) (ha : a.SmallAcc) (hs : Small sh)
+    (h : a.pushAdv sh = .ok a') : a'.SmallAcc := by
+  unfold IxAcc.pushAdv at h
+  obtain ⟨h1, h2, h3⟩ := ha
+  cases hadv : a.adv with
+  | none => simp only [hadv] at h; cases h; exact ⟨h1, h2, hs⟩
+  | some b =>
+    simp only [hadv] at h
+    cases hb : broadcast b sh with
+    | none => simp [hb] at h
+    | some r =>
+      simp only [hb] at h; cases h
+      have hbs : Small b := by simpa [hadv] using h3
+      exact ⟨h1, h2, broadcast_small b sh r hbs hs hb⟩
+
+theorem IxAcc.result_small (a : IxAcc) (ha : a.SmallAcc) : Small a.result := by
+  obtain ⟨h1, h2, h3⟩ := ha
+  unfold IxAcc.result
+  cases hadv : a.adv with
+  | none => exact h1.append h2
+  | some b =>
+    have hb : Small b := by simpa [hadv] using h3
+    simp only
+    split
+    · exact hb.append (h1.append h2)
+    · exact h1.append (hb.append h2)
+
+/-- a boolean scalar index selects at most one element -/
+def Ix.validScalarMask : Ix → Prop
+  | .mask [] nt => nt ≤ 1
+  | _ => True
+
+theorem walk_scalar_small (hasAdv : Bool) (ell : Nat) (ixs : List Ix) (acc acc' : IxAcc)
+    (hv : ∀ ix ∈ ixs, ix.validScalarMask) (ha : acc.SmallAcc)
+    (h : walk hasAdv ell ixs [] acc = .ok acc') : acc'.SmallAcc := by
+  induction ixs generalizing acc with
+  | nil =>
+    simp only [walk] at h; cases h
+    exact IxAcc.pushBasic_small acc [] ha (by intro d hd; cases hd)
+  | cons ix ixs ih =>
+    have hv' : ∀ j ∈ ixs, j.validScalarMask := fun j hj => hv j (by simp [hj])
+    cases ix with
+    | newaxis =>
+      simp only [walk] at h
+      exact ih _ hv' (IxAcc.pushBasic_small acc [1] ha (by intro d hd; simp at hd; omega)) h
+    | ellipsis =>
+      simp only [walk, List.take_nil, List.drop_nil] at h
+      exact ih _ hv' (IxAcc.pushBasic_small acc [] ha (by intro d hd; cases hd)) h
+    | mask ms nt =>
+      simp only [walk] at h
+      split at h
+      · rename_i hc; exact absurd rfl hc.2
+      · split at h
+        · rename_i hc
+          have hms : ms = [] := List.length_eq_zero_iff.1 (by simpa using hc.1)
+          subst hms
+          have hnt : nt ≤ 1 := hv (.mask [] nt) (by simp)
+          cases hp : acc.pushAdv [nt] with
+          | error e => simp [hp] at h
+          | ok a1 =>
+            simp only [hp, List.drop_nil] at h
+            exact ih _ hv' (IxAcc.pushAdv_small acc a1 [nt] ha (by intro d hd; simp at hd; omega) hp) h
+        · cases h
+    | int i => simp [walk] at h
+    | slice a b st => simp [walk] at h
+    | fancy sh lo hi => simp [walk] at h
+
+/-- every index of a 0-d array (newaxis, Ellipsis, boolean scalars, the empty tuple) selects at
+    most one element -/
+theorem index_scalar_parent_size (ixs : List Ix) (r : Shape)
+    (hv : ∀ ix ∈ ixs, ix.validScalarMask) (h : index [] ixs = .ok r) : size r ≤ 1 := by
+  unfold index at h
+  simp only at h
+  split at h
+  · cases h
+  · split at h
+    · cases h
+    · split at h
+      · cases h
+      · rename_i acc hw
+        split at h
+        · cases h
+        · have hres : acc.result = r := by injection h
+          have h0 : IxAcc.SmallAcc {} := by
+            refine ⟨?_, ?_, ?_⟩ <;> (intro d hd; simp at hd)
+          have := walk_scalar_small _ _ ixs {} acc hv h0 hw
+          rw [← hres]
+          exact size_le_one_of_small _ (IxAcc.result_small acc this)
+
 end Unyt.Shape
